@@ -121,9 +121,11 @@ class InotifyEmitter(EventEmitter):
         )
 
     def on_thread_stop(self) -> None:
-        if self._inotify:
-            self._inotify.close()
-            self._inotify = None
+        # May run concurrently in the emitter thread (watched root deleted) and in a thread calling
+        # unschedule()/stop(): take the buffer exactly once.
+        inotify, self._inotify = self._inotify, None
+        if inotify:
+            inotify.close()
 
     def queue_events(self, timeout: float, *, full_events: bool = False) -> None:
         # If "full_events" is true, then the method will report unmatched move events as separate events
